@@ -72,8 +72,9 @@ pub fn check(case: &Case, obs: &mut Obs) -> Verdict {
     if plain.contains('\u{1b}') || !clean_ansi(coloured) || strip(coloured) != plain {
         return Verdict::Skipped("generator precondition not met");
     }
-    let wp = textwrap::wrap(plain, o.build());
-    let wc = textwrap::wrap(coloured, o.build());
+    let built = o.build();
+    let wp = if o.by_ref(plain) { textwrap::wrap(plain, &built) } else { textwrap::wrap(plain, o.build()) };
+    let wc = if o.by_ref(coloured) { textwrap::wrap(coloured, &built) } else { textwrap::wrap(coloured, o.build()) };
     obs.calls += 2;
     if obs.want_sample {
         obs.out = Some(lines_json(&wc));
